@@ -122,6 +122,13 @@ def _tokenrefs(repo, rep):
             rep.check(0 <= refs[0] < call, "R12.1", g.qualname,
                       "the reference precedes the call of the macro",
                       construct="tokenref-before-call", where=L.where(g))
+            ev = lin.index(lambda it: isinstance(it, A.Eval))
+            rep.check(0 <= ev < refs[0], "R12.1", g.qualname,
+                      "the reference to the whole use-macro expression is "
+                      "planted after the expression was evaluated (before "
+                      "it, it would be merged with the expression's own "
+                      "leading reference and the call site would be lost)",
+                      construct="tokenref-after-eval", where=L.where(g))
         if ok and name == "visit_CodeBlock":
             rep.check(refs[0] == 0, "R12.1", g.qualname, "the reference "
                       "precedes the code block", construct="tokenref-block",
